@@ -42,8 +42,12 @@ VALUES = {
     "trafo3w_losses": ["hv", "star"],
     "v_debug": [False, True],
     "consider_line_temperature": [False],
+    "distributed_slack": [False, True],
+    "delta_q": [0, 0.01, 0.5],
 }
-KW_DEFAULTS = {"switch_rx_ratio": 2, "trafo3w_losses": "hv", "v_debug": False}   # kwargs.get(...) defaults
+KW_DEFAULTS = {"switch_rx_ratio": 2, "trafo3w_losses": "hv", "v_debug": False, "delta_q": 0}   # kwargs.get(...) defaults
+OPTION_KEY = {"delta_q": "delta"}        # runpp argument -> name of the option it becomes
+AUTO_MAX_ITERATION = {"nr": 10, "iwamoto_nr": 10, "bfsw": 100, "gs": 10000, "fdxb": 30, "fdbx": 30}
 POSITIONAL = ["algorithm", "calculate_voltage_angles", "init", "max_iteration", "tolerance_mva", "trafo_model"]
 
 
@@ -133,6 +137,12 @@ class OptionsModel:
         if key in self.stored:
             return self.stored[key], "stored"
         return defaults.get(key), "default"
+
+
+def _known_default_clash(key, passed, model, defaults):
+    """the argument is passed with its default value while another value is stored (known finding of C34)"""
+    return key in passed and key in model.stored and passed[key] == defaults.get(key) and \
+        model.stored[key] != passed[key]
 
 
 def _expected_init(v, had_results=False):
@@ -266,20 +276,38 @@ def _exec_runpp(net, op, i, ctx, model, defaults):
             want, src = model.resolve(key, passed, defaults)
             if key == "init":
                 exp = _expected_init(want, had_results)
-                if exp is None or "init_vm_pu" in model.stored or "init_va_degree" in model.stored:
+                if "init_vm_pu" in model.stored or "init_va_degree" in model.stored:
                     continue
-                got = (o.get("init_vm_pu"), o.get("init_va_degree"))
-                ok = got == exp
+                if exp is None and want == "auto":
+                    # derived from the resolved calculate_voltage_angles (documented meaning of "auto"); not judged
+                    # where that argument itself is in the known passed==default situation
+                    if _known_default_clash("calculate_voltage_angles", passed, model, defaults):
+                        continue
+                    cva, _ = model.resolve("calculate_voltage_angles", passed, defaults)
+                    got = o.get("init_va_degree")
+                    ok = got == ("dc" if cva else "flat")
+                    want = f"auto -> init_va_degree {'dc' if cva else 'flat'} (calculate_voltage_angles={cva})"
+                elif exp is None:
+                    continue
+                else:
+                    got = (o.get("init_vm_pu"), o.get("init_va_degree"))
+                    ok = got == exp
             elif key == "max_iteration":
-                if want == "auto":
-                    continue
                 got = o.get(key)
-                ok = got == want
+                if want == "auto":
+                    # derived from the resolved algorithm (documented meaning of "auto")
+                    alg, _ = model.resolve("algorithm", passed, defaults)
+                    if alg not in AUTO_MAX_ITERATION or _known_default_clash("algorithm", passed, model, defaults):
+                        continue
+                    ok = got == AUTO_MAX_ITERATION[alg]
+                    want = f"auto -> {AUTO_MAX_ITERATION[alg]} for algorithm {alg}"
+                else:
+                    ok = got == want
             elif key == "algorithm" and want == "no_such_algorithm":
                 got = o.get(key)
                 ok = got == want
             else:
-                got = o.get(key)
+                got = o.get(OPTION_KEY.get(key, key))
                 ok = got == want and type(got) is type(want) or (got == want and isinstance(got, (int, float)))
             compared += 1
             if key in passed and key in model.stored and model.stored[key] != passed[key]:
